@@ -641,6 +641,11 @@ UPGRADER:
 				if p.headerValue == "" {
 					p.headerValue = string(data[start:i])
 				}
+				// an empty value: the trailer has arrived all the same.
+				if len(p.trailer) == 0 {
+					return fmt.Errorf("invalid trailer '%v'", p.headerKey)
+				}
+				delete(p.trailer, p.headerKey)
 				p.Processor.OnTrailerHeader(p, p.headerKey, p.headerValue)
 				p.headerKey = ""
 				p.headerValue = ""
